@@ -10,6 +10,7 @@ import asyncio
 
 from electrumx.lib.hash import hash_to_hex_str, double_sha256
 
+from harness import common
 from harness.common import SuiteResult, rng_for
 from harness.world.chaingen import Gen, NORMAL_SCRIPTS, UNSPENDABLE_SCRIPTS
 from harness.world.daemon import SimDaemon
@@ -715,7 +716,8 @@ def _run(tier, seed, want, name):
         n = {'quick': 150, 'thorough': 1500}[tier]
     scenarios = []
     if 'proofs' in want:
-        scenarios += [('header_cache_race', scenario_header_cache_race), ('tx_cache_race', scenario_tx_cache_race)]
+        scenarios += [('header_cache_race', scenario_header_cache_race), ('tx_cache_race', scenario_tx_cache_race),
+                      ('query_unflushed_height', scenario_query_unflushed_height)]
     if 'converge' in want:
         scenarios += [('refresh_spans_block', scenario_refresh_spans_block)]
     if 'queries' in want:
@@ -734,6 +736,8 @@ def _run(tier, seed, want, name):
                                            'scenario': [scen, variant], 'events': h.events[-20:],
                                            'all_failures': [f'{c}: {d}' for c, d in real[:6]]})
     for idx in range(n):
+        if common.out_of_time():
+            break
         h = History(res, seed, idx, tier, want)
         fails = h.run()
         canon = '|'.join(h.events)
